@@ -41,7 +41,9 @@ type Transport struct {
 	RTP          []RTPRec
 	RTCP         []RTCPRec
 	seq          int
-	FailRTPWrite int // fail the n-th next RTP write (1 = next); 0 = never
+	FailRTPWrite int  // fail the n-th next RTP write (1 = next); 0 = never
+	FailAllRTP   bool // every RTP write fails
+	Attempts     int  // RTP writes that reached the transport, failed ones included
 	FailRTCP     bool
 	FailRTCPOnce int
 	// AllRTCP is every RTCP packet (wire bytes) that ever reached the transport; Take* does not clear it.
@@ -56,6 +58,10 @@ type rtpSink struct {
 //go:norace
 func (s *rtpSink) Write(h *rtp.Header, payload []byte, _ interceptor.Attributes) (int, error) {
 	t := s.t
+	t.Attempts++
+	if t.FailAllRTP {
+		return 0, ErrInjected
+	}
 	if t.FailRTPWrite > 0 {
 		t.FailRTPWrite--
 		if t.FailRTPWrite == 0 {
